@@ -289,7 +289,11 @@ pub fn run(ctx: &Ctx, rep: &mut Report) {
     );
     let items = cert_items(ctx);
     let mut out = run_items(&items, |it, st| {
-        check_certificate(it, st).map_err(|m| {
+        let r = match crate::util::catch(|| check_certificate(it, st)) {
+            Ok(r) => r,
+            Err(p) => Err(format!("K={}: panic while building / certifying the encoder: {p}", it.k)),
+        };
+        r.map_err(|m| {
             simple_failure("certificate", m.clone(), format!("certificate:{}", if m.contains("relation") { "constraint" } else { "repair" }), json!({"k": it.k, "t": it.t, "build": format!("{:?}", it.build), "seed": it.seed}))
         })
     });
